@@ -1,6 +1,8 @@
 import FinProtoc.SpecOf
 import FinProtoc.Visit
 import FinProtoc.Generated.Facts
+import FinProtoc.Dsl.Parser
+import FinProtoc.Proofs.VisitRefine
 /-!
 # C08 — generated code depends on meaning, not spelling
 
@@ -97,6 +99,136 @@ theorem metadata_typed_field (cfg : Config) (metas : List (String × DTy)) (attr
     fieldOf cfg metas attrs (.obj rep ft (some fname) none comma) =
       fieldOf cfg metas attrs (.metaF rep { ty, name := fname, doc := none, comma }) := by
   simp [fieldOf, hm, hty]
+
+/-! ## The visitor's state means the schema of the declarative reading (refinement)
+
+`specOf` is the declarative reading of a file; `Visit.run` is the statement-by-statement model of the Go visitor (tied to the
+real code by the differential `model` op).  `Visit.schemaOf` (`Proofs/VisitRefine.lean`) reads a `Schema` off the visitor's
+store the way the generators read it: `NewConfiguration` of the stored options, one packet per registered packet, one field
+per model field, the kind off the attribute cell (`getBasicType` of the stored spelling, the field's pad cell or else the
+configured pad).  The theorems below say that the two agree on the flat fragment `WFFlat` (typed scalar fields of every
+spelling, `char[n]` / `zchar[n]` with and without padding attributes, `string` / `char[]`, MetaData-typed fields, checksum
+fields, `repeat`, every option), under the side conditions `Visit.Agree`:
+
+* lexical ones, true of every tree the parser produces (a basic-type token is one of the 21 spellings of the grammar, a pad
+  character is `'0'`, `' '` or `'\x00'`), and "a checksum field has a scalar type";
+* ONE THAT EXCLUDES A GENUINE DISCREPANCY between the readings, witnessed below by a kernel-evaluated example: an option given
+  as a quoted string (`LittleEndian = "true";`): the visitor strips the quotes (`strings.Trim`), `specOf` does not and falls
+  back to the default.
+
+(A second discrepancy found while proving this - a checksum field with a written type that is also named after a MetaData
+entry took the entry's type in the visitor and the written one in `specOf` - is gone: the written type now wins in the Go
+code and in `Visit.metaTypeOf`.)
+
+Not covered yet: length fields, packet-typed fields, match fields, inline objects, RefMetaData entries. -/
+
+open FinProtoc.Visit in
+/-- **Refinement (flat fragment).**  If the file is a well-formed file of the flat fragment and satisfies the side conditions,
+then the state in which the visitor model ends stands for exactly the schema the declarative reading gives the file. -/
+theorem visit_refines_spec_partial (c : Cst) (h : WFFlat c) (ha : Agree c) (s : VState) (hr : Visit.run c = .ok s) :
+    schemaOf s = specOf c :=
+  (visit_refines_spec_flat c h ha s hr).1
+
+open FinProtoc.Visit in
+/-- … and there is such a schema: on this fragment the declarative reading is defined. -/
+theorem spec_defined_partial (c : Cst) (h : WFFlat c) (ha : Agree c) : (specOf c).isSome = true := by
+  obtain ⟨s, hs⟩ := Visit.run_ok c
+  exact (visit_refines_spec_flat c h ha s hs).2
+
+open FinProtoc.Visit in
+/-- The same, without mentioning the run: the visitor returns (`visit_no_crash`), reports nothing (`wf_accepted_partial`),
+and its state stands for `specOf c`. -/
+theorem visit_refines_spec_total (c : Cst) (h : WFFlat c) (ha : Agree c) :
+    ∃ s, Visit.run c = .ok s ∧ s.diags = [] ∧ schemaOf s = specOf c := by
+  obtain ⟨s, hs⟩ := Visit.run_ok c
+  exact ⟨s, hs, run_of_wlp (Q := fun s => s.diags = []) (visitCst_flat c h) hs, (visit_refines_spec_flat c h ha s hs).1⟩
+
+open FinProtoc.Visit in
+/-- **Spelling does not reach the visitor's meaning.**  Two files of the fragment with the same declarative reading - for
+instance related by one of the rewrites above: an alias spelling (`alias_scalar`), `zchar[n]` for `@rightPad('\x00') char[n]`
+(`zchar_is_nul_right_pad`), `char[]` for `string` (`dyn_spellings`), a default option written out (`default_options`) - leave
+the visitor in states that stand for the same schema. -/
+theorem same_spec_same_schema (c c' : Cst) (h : WFFlat c) (ha : Agree c) (h' : WFFlat c') (ha' : Agree c')
+    (he : specOf c = specOf c') (s s' : VState) (hr : Visit.run c = .ok s) (hr' : Visit.run c' = .ok s') :
+    schemaOf s = schemaOf s' := by
+  rw [visit_refines_spec_partial c h ha s hr, visit_refines_spec_partial c' h' ha' s' hr', he]
+
+/-- the configuration half on its own, for every option list the visitor accepts without a diagnostic (every option a
+documented one with an allowed value), the raw-NUL spelling of the pad character excepted: `NewConfiguration` of the stored
+options is `configOf` of the same list -/
+theorem config_refines_spec (os : List (String × String)) (h : Visit.OptsOK os)
+    (hnul : os.lookup "FixedStringPadChar" ≠ some "'\x00'") :
+    Visit.configOfM (Visit.configOfOptions os) = some (configOf os) :=
+  Visit.config_refines os h hnul
+
+/-! ### Non-vacuity: programs through lexer, parser, visitor model and `schemaOf`, evaluated by the kernel
+
+The kernel cannot run the derived `DecidableEq Schema` (nested inductive) nor `String.splitOn`, so the two schemas are
+compared through an injective-on-the-fragment first-order rendering `schemaSig` (configuration, then per packet its name and
+`root`, then per field name, kind tag with type / algorithm, length, pad byte, pad side, `repeat`); `withLeft := false` leaves
+the pad side of a field out (it is `splitOn`-computed for a padding attribute). -/
+
+private def kindSig (withLeft : Bool) : FKind → String × Nat × Nat × Bool
+  | .scalar t => ("scalar:" ++ t.name, 0, 0, false)
+  | .fixed n p => ("fixed", n, p.ch.toNat, withLeft && p.left)
+  | .dyn => ("dyn", 0, 0, false)
+  | .obj q => ("obj:" ++ q, 0, 0, false)
+  | .matchOn k _ => ("match:" ++ k, 0, 0, false)
+  | .lengthOf t tgt => ("len:" ++ t.name ++ ":" ++ tgt, 0, 0, false)
+  | .checksum t a => ("sum:" ++ t.name ++ ":" ++ a, 0, 0, false)
+
+private def schemaSig (withLeft : Bool) (S : Schema) : List (String × String × Nat × Nat × Bool × Bool) :=
+  ("cfg", S.cfg.strPfx.name ++ ":" ++ S.cfg.listPfx.name, S.cfg.pad.ch.toNat, 0, S.cfg.le, S.cfg.pad.left) ::
+  S.packets.flatMap fun p => (p.name, "packet", 0, 0, p.root, false) ::
+    p.fields.map fun f => let k := kindSig withLeft f.kind; (f.name, k.1, k.2.1, k.2.2.1, k.2.2.2, f.rep)
+
+/-- parse, run the visitor model, read the schema off its state, compare with the declarative reading (which must exist);
+no diagnostics -/
+private def agree (withLeft : Bool) (t : String) : Option Bool :=
+  (parseFull t).map fun c => match Visit.run c with
+    | .ok s => ((Visit.schemaOf s).map (schemaSig withLeft) == (specOf c).map (schemaSig withLeft)) &&
+        (specOf c).isSome && s.diags.isEmpty
+    | .error _ => false
+
+/-- options, MetaData (scalar, `zchar[n]`), a repeated MetaData-typed field, a `char[n]` with a padding attribute, a
+MetaData-typed `zchar`, a dynamic string, a checksum field typed by a MetaData entry -/
+private def refTextA : String :=
+  "options {\n LittleEndian = true;\n FixedStringPadChar = '0';\n}\nMetaData M {\n u16 T,\n zchar[6] Z,\n u32 Crc,\n}\nroot packet P {\n repeat T ts,\n @leftPad(' ') char[6] S,\n Z,\n string Name,\n Crc @calculatedFrom(\"CRC32\"),\n}\n"
+
+/-- the same without the attribute (the configured pad `'0'` from the left applies to `S`) … -/
+private def refTextB : String :=
+  "options {\n LittleEndian = true;\n FixedStringPadChar = '0';\n FixedStringPadFromLeft = true;\n}\nMetaData M {\n u16 T,\n zchar[6] Z,\n u32 Crc,\n}\nroot packet P {\n repeat T ts,\n char[6] S,\n Z,\n string Name,\n Crc @calculatedFrom(\"CRC32\"),\n}\n"
+
+/-- … and respelled: aliases `uint16` / `uint32`, `char[]` for `string`, the default `ArrayPrefixLenType = u16` written out -/
+private def refTextB2 : String :=
+  "options {\n LittleEndian = true;\n FixedStringPadChar = '0';\n FixedStringPadFromLeft = true;\n ArrayPrefixLenType = u16;\n}\nMetaData M {\n uint16 T,\n zchar[6] Z,\n uint32 Crc,\n}\nroot packet P {\n repeat T ts,\n char[6] S,\n Z,\n char[] Name,\n Crc @calculatedFrom(\"CRC32\"),\n}\n"
+
+example : agree false refTextA = some true := by decide +kernel
+example : agree true refTextB = some true := by decide +kernel
+example : agree true refTextB2 = some true := by decide +kernel
+
+/-- the two spellings have the same declarative reading (hence, by the two examples above, the visitor's states stand for
+the same schema), and it is the expected one -/
+example : ((((parseFull refTextB).bind fun c => (specOf c).map (schemaSig true)) ==
+      ((parseFull refTextB2).bind fun c => (specOf c).map (schemaSig true))) &&
+    (((parseFull refTextB).bind fun c => (specOf c).map (schemaSig true)) ==
+      some [("cfg", "u16:u16", 48, 0, true, true), ("P", "packet", 0, 0, true, false),
+            ("ts", "scalar:u16", 0, 0, false, true), ("S", "fixed", 6, 48, true, false), ("Z", "fixed", 6, 0, false, false),
+            ("Name", "dyn", 0, 0, false, false), ("Crc", "sum:u32:\"CRC32\"", 0, 0, false, false)])) = true := by
+  decide +kernel
+
+/-! ### The discrepancy the side condition `Agree.optRaw` excludes (kernel-evaluated; accepted without a diagnostic) -/
+
+/-- a quoted option value: the visitor (like `VisitPacket`, `strings.Trim(value, "\"")`) reads little-endian, `specOf` reads
+the default -/
+example : ((parseFull "options {\n LittleEndian = \"true\";\n}\npacket P {\n u16 a,\n}\n").map fun c =>
+    (match Visit.run c with | .ok s => (s.diags.isEmpty, (Visit.schemaOf s).map (·.cfg.le)) | .error _ => (false, none),
+     (specOf c).map (·.cfg.le))) = some ((true, some true), some false) := by decide +kernel
+
+/-- the former second discrepancy, now agreed on: a checksum field with a written type named after a MetaData entry has
+the written type in both readings -/
+example : agree true "MetaData M {\n u32 Sum,\n}\npacket P {\n u16 Sum @calculatedFrom(\"crc\"),\n}\n" = some true := by
+  decide +kernel
 
 /-! ## T1: alias table and option defaults of the models are those of `model.go` as it stands now
 
